@@ -27,7 +27,7 @@ RULE = ('a pattern from a regex grammar (literals, classes, ., alternation, grou
 ASSUMPTIONS = ['scripted transport (H1); the re module defines what a flag means',
                'grammar avoids \\w-style classes whose meaning legitimately differs between str and bytes patterns']
 REQUIRED = ['history_calls_compared', 'form_pairs_compared', 'flag_subsets_compared', 'mixed_form_lists', 'invalid_objects_rejected', 'dot_newline_cases',
-            'ignorecase_cases', 'cross_type_compiled_cases']
+            'ignorecase_cases', 'cross_type_compiled_cases', 'nonascii_compiled_other_type_cases']
 
 FLAGS = [re.IGNORECASE, re.MULTILINE, re.VERBOSE, re.DOTALL, re.ASCII]
 ATOMS = ['a', 'b', 'c', 'A', '.', '[ab]', '[^a]', r'\n', ' ', r'\.', r'\ ', 'ab', 'ba', '^', '$', '(?:a|b)',
@@ -81,6 +81,8 @@ def run_form(case, form):
     """form(child, conv) performs exactly one expect-family call."""
     enc = case['enc']
     conv = conv_for(enc)
+    if enc is None and case.get('utf8'):
+        conv = lambda s0: s0.encode('utf-8')          # (the child speaks UTF-8; the object is in bytes mode)
     clock = VClock()
     saved = pexpect.expect.time
     pexpect.expect.time = clock
@@ -113,6 +115,34 @@ def run_form(case, form):
 def other(s, enc):
     """The same pattern source in the other string type."""
     return s if enc is None else s.encode('ascii')
+
+
+def nonascii_case(case, acc):
+    """a compiled regex of the other string type whose text is not ASCII: equivalent to the native pattern (the
+    text is carried over as UTF-8, the flags unchanged)"""
+    acc.case()
+    acc.count('nonascii_compiled_other_type_cases')
+    enc, src, fl = case['enc'], case['src'], case['flags']
+    nat = re.compile(src.encode('utf-8') if enc is None else src, fl)
+    oth = re.compile(src if enc is None else src.encode('utf-8'), fl)
+    ref = run_form(case, lambda c, conv: c.expect(nat))
+    if ref.kind.startswith('error'):
+        acc.violation('native-form-raises', 'pattern %r: %r' % (src, ref), case)
+        return
+    for nm, form in (('compiled-other-string-type', lambda c, conv: c.expect(oth)),
+                     ('compiled-other-string-type-in-list', lambda c, conv: c.expect([oth, EOF])),
+                     ('compiled-other-string-type-expect_list', lambda c, conv: c.expect_list(c.compile_pattern_list([oth, EOF])))):
+        got = run_form(case, form)
+        want = ref
+        if nm != 'compiled-other-string-type':
+            want = run_form(case, lambda c, conv: c.expect([nat, EOF]))
+        acc.count('form_pairs_compared')
+        if want.key() != got.key():
+            acc.violation('form-' + nm + '-differs', 'non-ASCII pattern %r flags=%d mode=%s: native %r; %s %r' % (
+                src, fl, enc or 'bytes', want, nm, got), case)
+            return
+    if ref.kind == 'match':
+        acc.nontrivial('c20n', src, fl, case['script'], enc)
 
 
 def history_case(case, acc):
@@ -180,6 +210,8 @@ def run_shard(spec, acc):
     if 'replay' in spec:
         if spec['replay'].get('history'):
             return history_case(spec['replay'], acc)
+        if spec['replay'].get('nonascii'):
+            return nonascii_case(spec['replay'], acc)
         return one_case(spec['replay'], acc)
     rng = rng_for(spec['seed'], spec['shard'], 20)
     for k in range(spec['n']):
@@ -226,6 +258,17 @@ def run_shard(spec, acc):
             acc.sample(case)
         if k % 4 == 0:
             history_case(gen_history(rng), acc)
+        if k % 5 == 0:
+            lits = ['caf\xe9', '\xe9', 'stra\xdfe', 'a\u20acb', '\u65e5\u672c']
+            lit = rng.choice(lits)
+            srcn = rng.choice([lit, lit + '+', '[ab]' + lit, lit + '.', '(' + lit + '|b)', lit.upper()])
+            textn = ''.join(rng.choice(['a', 'b', '\n', ' ', lit, lit, lit.upper(), '\xe9']) for _ in range(rng.randint(1, 6)))
+            fln = 0
+            for f in (re.IGNORECASE, re.MULTILINE, re.DOTALL):
+                if rng.random() < 0.3:
+                    fln |= int(f)
+            nonascii_case({'enc': rng.choice([None, 'utf-8']), 'utf8': True, 'src': srcn, 'flags': fln,
+                           'script': [['d', p] for p in rand_cuts(rng, textn, 3)] + [['e']], 'nonascii': True}, acc)
 
 
 def compare(acc, case, name, ref, got):
